@@ -6,6 +6,8 @@ CONSTANTS
   MaxOps = 1
   Notifs = {}
   MaxNotif = 0
+  MaxDup = 0
+  DistinctPatterns = FALSE
   Bug = "none"
   OneQueryPerCmd = FALSE
 INVARIANT TypeOK
